@@ -92,7 +92,9 @@ func mkVec(args []string) c16Vec {
 var c16Long = strings.Repeat("L", 300)
 
 var c16Tokens = []string{"NX", "nx", "XX", "EX", "ex", "PX", "EXAT", "PXAT", "MATCH", "COUNT", "count", "RC", "RW", "LC", "CR",
-	"", "0", "1", "-1", "0.5", "1e309", "NaN", "9223372036854775807", "18446744073709551616", "999999", "abc", "d", "k", "\x00\xfe\xff", c16Long, "deadbeef"}
+	"", "0", "1", "-1", "0.5", "1e309", "NaN", "9223372036854775807", "18446744073709551616", "999999", "abc", "d", "k", "\x00\xfe\xff", c16Long, "deadbeef",
+	// the smallest well-formed msgpack documents: payloads that decode and are rejected later
+	"\x80", "\x90", "\xc0"}
 
 // valid prefixes: a well-formed command to which option suffixes are appended
 func c16ValidCommands(rawEntry, movePayload, routePayload string, coordID string) [][]string {
